@@ -262,6 +262,25 @@ check('C18', 'model_checking',
       'probabilities judged by TLC',
       'tlc-data')
 
+check('C11', 'model_checking',
+      'Simulation.tla specifies the trial pipeline and DirectSimulation\'s '
+      'accounting state machine; Simulation_Trace.tla replays logs of real '
+      'simulations through its Run action: every trial of random '
+      'interleavings of run(k) is judged (syndrome, effective error, '
+      'codespace, success), the result lists at every call boundary, '
+      'get_results\' estimator and standard error; identical seeds in fresh '
+      'processes / different chunkings must give identical logs; and on '
+      'n = 4 (5) codes the failure table over all 4^n errors plus the real '
+      'simulation driven by the complete stratified variate grid (8^n '
+      'trials) must give n_fail equal to the exact failure probability '
+      'summed by TLC with Noise!PNum.',
+      'DESIGN.md 4/C11',
+      'Trusted: TLC; decoder purity (C06) for the failure table; floats '
+      'compared at 2e-6.',
+      'TLA+ trial/accounting spec + code->spec trace validation + exact '
+      'stratified calibration decided by TLC',
+      'tlc-data')
+
 
 def build():
     checks = []
